@@ -95,7 +95,7 @@ def strip_for_twin(proj: dict) -> dict:
     """Remove what legitimately differs between an incremental and a scratch universe.
 
     - sinks that are detached steps: a memory, never a relation of the active graph;
-    - the stored-hash flag of steps that are not SUCCEEDED;
+    - the stored-hash flag and the deferred flag of steps that are not SUCCEEDED;
     - amended (dynamic) information of steps that are not SUCCEEDED: it is what the last
       run discovered, is validated or dropped before the step is used again, and a scratch
       build that never ran the step cannot have it.
@@ -110,6 +110,9 @@ def strip_for_twin(proj: dict) -> dict:
         if d.get("kind") == "step":
             if k in not_done:
                 d.pop("has_hash", None)
+                # whether the last attempt of a step that is not done was deferred is a memory
+                # of that attempt, too (a deferral that matters shows in the return code)
+                d.pop("deferred", None)
                 d["sources"] = [(r, dyn) for r, dyn in d["sources"] if not dyn]
                 d["sinks"] = [(r, dyn) for r, dyn in d["sinks"] if not dyn]
                 d["env"] = [(n, dyn) for n, dyn in d["env"] if not dyn]
